@@ -29,6 +29,8 @@ pub struct Case {
     pub source: u8,
     pub buffer: u8,
     pub script: Vec<(bool, u8)>,
+    /// io::Read source only: positions (fractions of the stream) at which the source reports `Interrupted` first
+    pub interrupts: Vec<u16>,
 }
 
 #[derive(Debug, Clone)]
@@ -43,6 +45,9 @@ pub struct Input {
     pub buffer: u8,
     /// per call: (use next instead of read, target type 0 DecodedBytes / 1 File / 2 Parser); cycled
     pub script: Vec<(bool, u8)>,
+    /// io::Read source only: fractions (x/65536 of the stream length) at which the source first reports
+    /// `ErrorKind::Interrupted` - a condition every std::io::Read consumer has to retry
+    pub interrupts: Vec<u16>,
 }
 
 /// What one call produced, in owned form.
@@ -198,12 +203,21 @@ where
     Ok(())
 }
 
+fn io_script(stream: &[u8], interrupts: &[u16]) -> Vec<crate::drive::Step> {
+    let faults: crate::gen::faults::Faults = {
+        let mut v: Vec<(usize, crate::drive::Step)> = interrupts.iter().map(|x| (((*x as usize) * (stream.len() + 1)) >> 16, crate::drive::Step::Interrupted)).collect();
+        v.sort_by_key(|f| f.0);
+        v
+    };
+    crate::gen::faults::build_script(stream, &faults)
+}
+
 fn with_buffer<K: BufKind>(i: &Input, stream: &[u8], files: &[RFile], exp: &[Expect]) -> Result<(), Fail> {
     let b = if K::CAP == usize::MAX { "Vec".to_string() } else { format!("ArrayBuf<{}>", K::CAP) };
     match i.source {
         0 => run_script(K::builder().from_slice(stream), i, files, exp, &format!("SmlReader<{b}>::from_slice")),
         1 => run_script(K::builder().from_iterator(stream.iter()), i, files, exp, &format!("SmlReader<{b}>::from_iterator")),
-        _ => run_script(K::builder().from_reader(ScriptReader::new(crate::drive::script_of(stream)).0), i, files, exp, &format!("SmlReader<{b}>::from_reader")),
+        _ => run_script(K::builder().from_reader(ScriptReader::new(io_script(stream, &i.interrupts)).0), i, files, exp, &format!("SmlReader<{b}>::from_reader")),
     }
 }
 
@@ -247,7 +261,7 @@ pub fn eval_input(i: &Input, obs: &mut Obs) -> Result<(), Fail> {
         0 if maxlen <= 8192 => match i.source {
             0 => run_script(SmlReader::from_slice(&stream), i, &files, &exp, "SmlReader::from_slice (default buffer)"),
             1 => run_script(SmlReader::from_iterator(stream.iter()), i, &files, &exp, "SmlReader::from_iterator (default buffer)"),
-            _ => run_script(SmlReader::from_reader(ScriptReader::new(crate::drive::script_of(&stream)).0), i, &files, &exp, "SmlReader::from_reader (default buffer)"),
+            _ => run_script(SmlReader::from_reader(ScriptReader::new(io_script(&stream, &i.interrupts)).0), i, &files, &exp, "SmlReader::from_reader (default buffer)"),
         },
         1 => {
             let n = cap_at_least(maxlen).unwrap_or(*CAPS.last().unwrap());
@@ -284,6 +298,9 @@ pub fn eval_input(i: &Input, obs: &mut Obs) -> Result<(), Fail> {
     obs.class(format!("source:{}", ["slice", "iterator", "io::Read"][i.source as usize % 3]));
     obs.class(format!("buffer:{}", ["default", "arraybuf", "vec"][i.buffer as usize % 3]));
     obs.class(format!("files:{}", i.files.len().min(6)));
+    if !i.interrupts.is_empty() {
+        obs.class("io::Read:with-interrupted");
+    }
     obs.class(format!("target-types:{}", targets.len()));
     for g in &i.noises {
         obs.class(Noise::suffix_class(g));
@@ -294,7 +311,7 @@ pub fn eval_input(i: &Input, obs: &mut Obs) -> Result<(), Fail> {
 
 impl Prop for C10 {
     const ID: &'static str = "C10";
-    const RULE: &'static str = "k in 0..5 (thorough 0..9) G4 files, each framed by encode or encode_streaming, separated and surrounded by G3 noise (possibly empty; suffix classes: 0x1b runs, partial start sequences, end look-alikes), read through SmlReader over {slice, iterator, io::Read} with {default 8 KiB, ArrayBuf<N >= max|F|>, Vec} buffers under a per-call script choosing read vs next and the target type (DecodedBytes, File, Parser). Oracle: constructed expectation - for each i DiscardedBytes(|g_i|) if the noise is non-empty, then file i in the requested representation (bytes == payload, File == independent reading R3, Parser events == R3 events); after the last frame IoErr(Eof, |g_k|) once if |g_k| > 0, then next -> None / read -> IoErr(Eof, 0) on three further calls; and transport::decode + complete::parse composed by hand give the same. Non-trivial: >= 2 files with at least one non-empty noise, or >= 2 different target types in one script. Distinct = distinct inputs.";
+    const RULE: &'static str = "k in 0..5 (thorough 0..9) G4 files, each framed by encode or encode_streaming, separated and surrounded by G3 noise (possibly empty; suffix classes: 0x1b runs, partial start sequences, end look-alikes), read through SmlReader over {slice, iterator, io::Read (a one-byte-at-a-time reader that also reports ErrorKind::Interrupted at 0..3 positions, which std::io consumers must retry)} with {default 8 KiB, ArrayBuf<N >= max|F|>, Vec} buffers under a per-call script choosing read vs next and the target type (DecodedBytes, File, Parser). Oracle: constructed expectation - for each i DiscardedBytes(|g_i|) if the noise is non-empty, then file i in the requested representation (bytes == payload, File == independent reading R3, Parser events == R3 events); after the last frame IoErr(Eof, |g_k|) once if |g_k| > 0, then next -> None / read -> IoErr(Eof, 0) on three further calls; and transport::decode + complete::parse composed by hand give the same. Non-trivial: >= 2 files with at least one non-empty noise, or >= 2 different target types in one script. Distinct = distinct inputs.";
     type Case = Case;
     type Input = Input;
 
@@ -305,8 +322,8 @@ impl Prop for C10 {
     fn strategy(tier: Tier) -> BoxedStrategy<Case> {
         let maxk = tier.pick(5usize, 9);
         (0..maxk)
-            .prop_flat_map(|k| (vec((cfile(false), any::<bool>()), k), vec(prop_oneof![2 => Just(Noise { toks: vec![], suffix: crate::gen::stream::NSuffix::None }), 3 => noise(300, true)], k + 1), 0u8..3, 0u8..3, vec((any::<bool>(), 0u8..3), 1..8)))
-            .prop_map(|(files, noises, source, buffer, script)| Case { files, noises, source, buffer, script })
+            .prop_flat_map(|k| (vec((cfile(false), any::<bool>()), k), vec(prop_oneof![2 => Just(Noise { toks: vec![], suffix: crate::gen::stream::NSuffix::None }), 3 => noise(300, true)], k + 1), 0u8..3, 0u8..3, vec((any::<bool>(), 0u8..3), 1..8), vec(any::<u16>(), 0..4)))
+            .prop_map(|(files, noises, source, buffer, script, interrupts)| Case { files, noises, source, buffer, script, interrupts })
             .boxed()
     }
 
@@ -317,6 +334,7 @@ impl Prop for C10 {
             source: c.source,
             buffer: c.buffer,
             script: c.script.clone(),
+            interrupts: if c.source == 2 { c.interrupts.clone() } else { vec![] },
         }
     }
 
@@ -332,6 +350,9 @@ impl Prop for C10 {
         }
         for n in &i.noises {
             kv.put_b("noise", n);
+        }
+        for x in &i.interrupts {
+            kv.put_u("interrupt_at", *x as u64);
         }
         for (n, t) in &i.script {
             kv.put("call", format!("{}:{}", if *n { "next" } else { "read" }, t));
@@ -354,6 +375,10 @@ impl Prop for C10 {
             let (n, t) = c.split_once(':').ok_or("bad call")?;
             script.push((n == "next", t.parse::<u8>().map_err(|e| e.to_string())? % 3));
         }
-        Ok(Input { files, noises, source: kv.get_u("source")? as u8 % 3, buffer: kv.get_u("buffer")? as u8 % 3, script })
+        let mut interrupts = Vec::new();
+        for x in kv.all("interrupt_at") {
+            interrupts.push(x.parse::<u16>().map_err(|e| e.to_string())?);
+        }
+        Ok(Input { files, noises, source: kv.get_u("source")? as u8 % 3, buffer: kv.get_u("buffer")? as u8 % 3, script, interrupts })
     }
 }
